@@ -156,6 +156,16 @@ def prepare_crate(snapshot: str, files: list[str]) -> dict:
     os.makedirs(os.path.join(snapshot, ".cargo"), exist_ok=True)
     open(os.path.join(snapshot, ".cargo", "config.toml"), "w").write("[net]\noffline = true\n")
     by_target: dict[str, list[str]] = {}
+    # `//@ needs <file>`: harness modules whose helpers this file uses
+    files = list(files)
+    k = 0
+    while k < len(files):
+        for ln in open(os.path.join(VERIF, "kani", files[k])):
+            if ln.startswith("//@ needs "):
+                dep = ln.split()[2]
+                if dep not in files:
+                    files.append(dep)
+        k += 1
     for f in files:
         path = os.path.join(VERIF, "kani", f)
         target, injects, harnesses, body = parse_harness_file(path)
@@ -177,7 +187,7 @@ def prepare_crate(snapshot: str, files: list[str]) -> dict:
                 text = text[:pos] + ins + text[pos:]
             open(tp, "w").write(text)
         by_target.setdefault(target, []).append(
-            f"\n#[cfg(kani)]\n#[allow(unused, non_snake_case, clippy::all)]\nmod verif_kani_{name} {{\n{body}\n}}\n")
+            f"\n#[cfg(kani)]\n#[allow(unused, non_snake_case, clippy::all)]\npub(crate) mod verif_kani_{name} {{\n{body}\n}}\n")
         info["modules"].append(f"{target}: mod verif_kani_{name} ({len(harnesses)} harnesses)")
     for target, mods in by_target.items():
         tp = os.path.join(snapshot, target)
